@@ -14,17 +14,21 @@ let line l =
   let cmd = Stdlib.String.sub l 0 sp1 in
   match cmd with
   | "propagate" ->
+    (* propagate <p> <kv> <kd> (cfg ...) (idom ...) *)
     let rest = Stdlib.String.sub l (sp1 + 1) (Stdlib.String.length l - sp1 - 1) in
     (match Stdlib.String.split_on_char ' ' rest with
      | p :: kv :: kd :: _ ->
        let off = Stdlib.String.length p + Stdlib.String.length kv + Stdlib.String.length kd + 3 in
        let sx = Stdlib.String.sub rest off (Stdlib.String.length rest - off) in
-       let c = r_cfg (parse_sexp sx) in
-       (match Propagate.propagate (nat_of_int (budget kv)) (nat_of_int (budget kd)) (z_of_hex p) c with
-        | Ok c' -> show_sexp (w_cfg c')
-        | Panic _ -> "(panic)"
-        | OutOfFuel -> "(outoffuel)"
-        | Err _ -> "(err)")
+       (match parse_sexp ("(" ^ sx ^ ")") with
+        | L [cx; L (A "idom" :: ds)] ->
+          let idom = Stdlib.List.map (function A "-" -> None | x -> Some (num_n x)) ds in
+          (match Propagate.propagate (nat_of_int (budget kv)) (nat_of_int (budget kd)) (z_of_hex p) idom (r_cfg cx) with
+           | Ok c' -> show_sexp (w_cfg c')
+           | Panic _ -> "(panic)"
+           | OutOfFuel -> "(outoffuel)"
+           | Err _ -> "(err)")
+        | _ -> "(badline)")
      | _ -> "(badline)")
   | "vjust" ->
     let rest = Stdlib.String.sub l (sp1 + 1) (Stdlib.String.length l - sp1 - 1) in
@@ -35,9 +39,13 @@ let line l =
     if not (Justify.ldefs_unique_cfg c) then "(local-defs-not-unique)"
     else if Justify.vjust_cfg (z_of_hex p) c then "(justified)" else "(unjustified)"
   | "djust" ->
+    (* djust (cfg ...) (idom ...) *)
     let rest = Stdlib.String.sub l (sp1 + 1) (Stdlib.String.length l - sp1 - 1) in
-    let c = r_cfg (parse_sexp rest) in
-    if DegJustify.djust_cfg c then "(justified)" else "(unjustified)"
+    (match parse_sexp ("(" ^ rest ^ ")") with
+     | L [cx; L (A "idom" :: ds)] ->
+       let idom = Stdlib.List.map (function A "-" -> None | x -> Some (num_n x)) ds in
+       if DegJustify.djust_cfg (r_cfg cx) idom then "(justified)" else "(unjustified)"
+     | _ -> "(badline)")
   | "ssa" ->
     (* ssa (cfg ...) (dominfo (frontier ..) (children ..)) : the construction mirror *)
     let rest = Stdlib.String.sub l (sp1 + 1) (Stdlib.String.length l - sp1 - 1) in
